@@ -154,7 +154,8 @@ register(Obligation("verif.util.get_intervals#POST:None", ("C07",), s, c, p, mod
 
 # ------------------------------------------------------------------ lemmas (no code: validities over the specs)
 def _lemma(name, setup, goals, props=("C07",)):
-    register(Obligation(name, props, setup, lambda inp: None, lambda S, inp, out: goals(S, inp), modules=[]))
+    o = register(Obligation(name, props, setup, lambda inp: None, lambda S, inp, out: goals(S, inp), modules=[]))
+    return o
 
 
 def _l_cover():
